@@ -302,16 +302,55 @@ func cmdCheck(args []string) int {
 	}
 	var wg sync.WaitGroup
 	sem := make(chan struct{}, 12)
-	for _, j := range jobs {
-		j := j
+	// obligations of one return path share their hypotheses: try them as one conjunction first
+	groups := map[string][]int{}
+	var groupOrder []string
+	for i, j := range jobs {
+		g := j.o.Group
+		if g == "" {
+			g = fmt.Sprintf("single#%d", i)
+		}
+		if _, ok := groups[g]; !ok {
+			groupOrder = append(groupOrder, g)
+		}
+		groups[g] = append(groups[g], i)
+	}
+	for _, g := range groupOrder {
+		idx := groups[g]
 		wg.Add(1)
 		sem <- struct{}{}
-		go func() {
+		go func(idx []int) {
 			defer wg.Done()
 			defer func() { <-sem }()
-			res := solveSplit(j.q, timeoutS)
-			j.o.Res = &res
-		}()
+			if len(idx) > 1 {
+				// build the conjunction from the ORIGINAL obligations (their hypotheses are the shared path
+				// condition); antecedents of the individual goals must stay local to their conjunct
+				var goals []*Term
+				for _, i := range idx {
+					goals = append(goals, jobs[i].o.Goal)
+				}
+				q := &Query{Name: jobs[idx[0]].q.Name + " [grouped]", Hyps: dedupe(jobs[idx[0]].o.Hyps), Goal: And(goals...)}
+				prepareQuery(q)
+				terms := append([]*Term(nil), q.Hyps...)
+				terms = append(terms, q.Goal)
+				axMu.Lock()
+				q.Axioms = v.axiomsFor(run, terms, nil)
+				axMu.Unlock()
+				res := Solve(q, 3, false)
+				if res.Verdict == "unsat" {
+					for _, i := range idx {
+						r := res
+						r.TimeS = res.TimeS / float64(len(idx))
+						jobs[i].o.Res = &r
+					}
+					return
+				}
+			}
+			for _, i := range idx {
+				res := solveSplit(jobs[i].q, timeoutS)
+				jobs[i].o.Res = &res
+			}
+		}(idx)
 	}
 	wg.Wait()
 	if *stress {
@@ -820,6 +859,8 @@ func solveSplit(q *Query, timeoutS int) SolverResult {
 	}
 	return total
 }
+
+var axMu sync.Mutex
 
 type oq struct {
 	o *Oblig
